@@ -308,6 +308,26 @@ def looked_at_template(chk):
                         {'group': 'roll radius / velocities', 'history': 'template looked at before the pass was built'})
 
 
+def target_group(chk):
+    """two-roll pass, target filling ratio supplied: target width and target cross-section area follow it - the area is the one of the opening clipped to the
+    target width - and a fresh pass given the derived width agrees"""
+    from pyroll.core import Roll, RollPass, Profile, CircularOvalGroove
+    for ratio in (0.9, 0.75, 1.0):
+        g = CircularOvalGroove(depth=8e-3, r1=6e-3, r2=40e-3)
+        mk = lambda **kw: RollPass(label="p", roll=Roll(groove=g, nominal_radius=0.16), gap=2e-3, **kw)      # noqa
+        a = mk(target_filling_ratio=ratio)
+        chk.cov['evaluations'] += 1
+        tw, ta, ua = float(a.target_width), float(a.target_cross_section_area), float(a.usable_cross_section.area)
+        want_area = Profile.from_groove(g, width=tw, gap=2e-3).cross_section.area
+        b = mk(target_width=tw)
+        tb = float(b.target_cross_section_area)
+        data = {'group': 'pass target width / filling ratio / cross-section area', 'supplied': ['target_filling_ratio'], 'ratio': ratio}
+        if not math.isclose(tw, ratio * float(a.usable_width), rel_tol=1e-9) or not math.isclose(ta, want_area, rel_tol=1e-6) or not math.isclose(ta, tb, rel_tol=1e-9) \
+                or (ratio < 1 and not ta < ua):
+            return chk.fail('inconsistent', f"two-roll pass with target_filling_ratio = {ratio} supplied: target_width {tw} (usable width {float(a.usable_width)}), "
+                            f"target_cross_section_area {ta} (opening clipped to that width: {want_area}, usable area {ua}); a fresh pass given target_width = {tw} reads {tb}", data)
+
+
 def run(chk):
     _ta.generate(chk)
     for f in ('C16_proofs.v', 'C16.v'):
@@ -323,6 +343,8 @@ def run(chk):
         reevaluation_chain(chk)
     if not chk.failures:
         looked_at_template(chk)
+    if not chk.failures:
+        target_group(chk)
     chk.cov['distinct_nontrivial'] += len(seen)
     chk.cov['exhaustive'] = True
     chk.sample({'group': 'transport length/duration (velocity given)', 'supplied': ['length'], 'order': ['duration', 'length']})
